@@ -1,6 +1,7 @@
 //! verif harness: drives the real ruma API with cases emitted by TLC (spec -> impl replay) and
 //! records executions of the real API for validation by TLC (impl -> spec).
 mod c01;
+mod c02;
 mod c04;
 mod c08;
 mod c10;
@@ -21,6 +22,8 @@ fn main() {
     match (args[0].as_str(), args[1].to_ascii_lowercase().as_str()) {
         ("replay", "c01") => c01::replay(rest),
         ("record", "c01") => c01::record(rest),
+        ("replay", "c02") => c02::replay(rest),
+        ("kat", "c02") => c02::kat(rest),
         ("replay", "c04") => c04::replay(rest),
         ("record", "c04") => c04::record(rest),
         ("replay", "c08") => c08::replay(rest),
